@@ -201,8 +201,15 @@ pub fn check_c04(ctx: &RunCtx, out: &mut Outcome) {
 
 fn gen_c04(seed: u64, idx: usize, tier: Tier) -> RunScenario {
     let mut rng = Rng::new(scenario_seed(seed, "C04", idx));
+    // one world in twenty-five: a layer of 66-90 independent targets (with a dependent on top) under three or four
+    // commands: a plan of 250-370 (command, target) entries
+    let large = rng.chance(1, 25);
     let p = GenParams {
-        max_t: if tier == Tier::Thorough && rng.chance(1, 5) { 24 } else { 10 },
+        max_t: if large { 3 } else if tier == Tier::Thorough && rng.chance(1, 5) { 24 } else { 10 },
+        wide_group: if large { Some(rng.range(66, 90)) } else { None },
+        max_cmds: if large { 4 } else { 3 },
+        min_cmds: if large { 3 } else { 1 },
+        sequences_pct: if large { 0 } else { 30 },
         ..Default::default()
     };
     let mut spec = gen_world(&mut rng, &p);
@@ -229,7 +236,14 @@ fn gen_c04(seed: u64, idx: usize, tier: Tier) -> RunScenario {
             opts.commands.push(used[rng.below(used.len())].clone());
         }
     }
-    let mode = if gap {
+    if large {
+        let mut cs = crate::runworld::world_commands(&spec);
+        rng.shuffle(&mut cs);
+        opts = RunOpts { commands: cs, ..Default::default() };
+    }
+    let mode = if large {
+        Mode::All
+    } else if gap {
         let mut edits = vec!["gap0/other.txt".to_string(), "gap2/file.txt".to_string()];
         for t in &spec.targets {
             if !t.path.starts_with("gap") && rng.chance(40, 100) {
@@ -410,7 +424,7 @@ fn gen_c16(seed: u64, idx: usize, tier: Tier) -> RunScenario {
     let early = rng.chance(1, 4);
     let chatty = rng.chance(1, 4);
     for cf in &spec.cmd_files {
-        let mut b = crate::rundrv::Behav { command: cf.command.clone(), target: cf.target.clone(), outs: vec![], code: 0, exit_pause_ms: 0, early_exit: false, hold_pipes_ms: 0 };
+        let mut b = crate::rundrv::Behav { command: cf.command.clone(), target: cf.target.clone(), outs: vec![], code: 0, exit_pause_ms: 0, early_exit: false, hold_pipes_ms: 0, outs_again: vec![] };
         if early && cf.target.starts_with('w') && rng.chance(1, 6) {
             b.early_exit = true;
         }
